@@ -1,6 +1,7 @@
 package simnode
 
 import (
+	"errors"
 	"github.com/aergoio/aergo/v2/consensus/impl/dpos"
 	"github.com/aergoio/aergo/v2/internal/enc/proto"
 	"github.com/aergoio/aergo/v2/types"
@@ -9,10 +10,24 @@ import (
 // Permissive is the CHAIN world's consensus plug (config A): real DPoS status, LIB
 // and signature verification, but no slot-ownership / timestamp veto, so that
 // arbitrary block trees are admissible (same role as the repo's own StubConsensus).
-type Permissive struct{ *dpos.DPoS }
+type Permissive struct {
+	*dpos.DPoS
+	N *Node
+}
 
-func (p *Permissive) VerifyTimestamp(*types.Block) bool           { return true }
-func (p *Permissive) IsBlockValid(b, best *types.Block) error     { return nil }
+func (p *Permissive) VerifyTimestamp(*types.Block) bool { return true }
 
-func protoEncode(b *types.Block) ([]byte, error)      { return proto.Encode(b) }
-func protoDecode(buf []byte, b *types.Block) error    { return proto.Decode(buf, b) }
+// IsBlockValid refuses exactly the blocks the world marked (Node.Veto, keyed by block hash): the
+// stand-in for "signed by a producer that does not own the slot". Where the chain service asks
+// this question, and what it has already started by then, is the code under test.
+func (p *Permissive) IsBlockValid(b, best *types.Block) error {
+	if p.N != nil && p.N.Veto[string(b.BlockHash())] {
+		return errVeto
+	}
+	return nil
+}
+
+var errVeto = errors.New("BP is not permitted for the time slot (vetoed by the simulated consensus)")
+
+func protoEncode(b *types.Block) ([]byte, error)   { return proto.Encode(b) }
+func protoDecode(buf []byte, b *types.Block) error { return proto.Decode(buf, b) }
